@@ -27,6 +27,8 @@ structure Tables where
   helpLineAction : Bytes
   handlerErrorClass : Bytes
   errorClasses : List Bytes
+  /-- actions of lines that are not replies (events, error events, log messages, help text lines) -/
+  asyncActions : List Bytes
 
 /-- what `dispatcher.handle_request(conn, msg)` ends with -/
 inductive DispResult (J : Type) where
